@@ -1397,6 +1397,38 @@ def make_machine(world_cls, checks, cfg_strategy, rule_weights=None):
             self._do({"_": "book", "dt": 1000, "rc": []})
             self._do({"_": "book", "dt": 1000, "rc": [{"r": r, "trd": [[rest, d(st.sampled_from([4.0, 100.0]))]]}]})
 
+        @precondition(lambda self: rw.get("replace_through", 0) > 0)
+        @rule(data=st.data())
+        def double_request(self, data):
+            """directed: a second request (any kind) on an order whose first request is still in flight - it is refused
+            by the order's state and changes nothing; both windows then elapse"""
+            if not self.w:
+                return
+            d = data.draw
+            si = d(st.integers(0, self.ns - 1))
+            r = d(st.integers(0, self.nr - 1))
+            mid = self.mids[r]
+            side = d(st.sampled_from(["BACK", "LAY"]))
+            rest = min(self.nt - 1, mid + 8) if side == "BACK" else max(0, mid - 8)
+            self._do({"_": "req", "op": "place", "si": si, "r": r, "side": side, "type": d(st.sampled_from(["LIMIT", "LIMIT", "LOC"])), "tick": rest,
+                      "size": 2.0, "liability": 2.0, "pers": d(st.sampled_from(["LAPSE", "PERSIST"])), "trade": "new"})
+            self._do({"_": "book", "dt": 1000, "rc": []})
+            first = d(st.sampled_from(["replace", "cancel", "update"]))
+            ops = {"replace": {"op": "replace", "ticks": d(st.sampled_from([2, 3]))}, "cancel": {"op": "cancel", "red": d(st.sampled_from([None, 0.5]))},
+                   "update": {"op": "update", "pers": "PERSIST"}}
+            self._do({"_": "req", "si": si, "o": -1, "pool": "live", **ops[first]})
+            if d(st.booleans()):
+                self._do({"_": "book", "dt": 50, "rc": []})
+            second = d(st.sampled_from(["replace", "replace", "cancel", "update"]))
+            op2 = dict(ops[second])
+            if second == "replace":
+                op2["ticks"] = 5
+            if second == "update":
+                op2["pers"] = "LAPSE"
+            self._do({"_": "req", "si": si, "o": -1, "pool": "live", **op2})
+            self._do({"_": "book", "dt": 1000, "rc": []})
+            self._do({"_": "book", "dt": 1000, "rc": []})
+
         @precondition(lambda self: rw.get("cancel_batch", 0) > 0)
         @rule(data=st.data())
         def cancel_batch(self, data):
